@@ -8,6 +8,11 @@ CLAIMED = {
    text="Seeded search over writer histories (writer kind x option swarm x Write/Flush batching) executed on simulated storage; every row read back through five read paths is compared with the model (the slice handed to the writer). Sampling of histories/configurations, not a proof; the value dimension is seeded generation over four Go struct types.",
    note="Trusts Schema.Deconstruct only as a convenience for row-level comparison (typed values are also compared directly). Library built by go1.26.8 with tags verif,debug (deterministic pool replaces sync.Pool).",
    ref="DESIGN.md §4 C01"),
+ "C07": dict(level="exploration", engine="E1 storage-sim",
+   technique="deterministic simulation: seeded histories deciding how each bloom filter comes to be (dictionary flush, page re-read from simulated buffer pools, fallback, Reset reuse, WriteRowGroup copy/re-encode, deferred/gzip) and how it is read back over a simulated ReaderAt; oracle = no false negative for any written value",
+   text="Seeded search over filter-construction histories and read-back configurations; every non-null value written to a filtered column chunk must Check true with no error. The value-set dimension is seeded generation (declared); what the simulator adds is the history, the simulated storage behaviour and the deterministic pool state.",
+   note="An absent configured filter is counted as a probe, not reported (absence is not a false negative).",
+   ref="DESIGN.md §4 C07"),
  "C08": dict(level="exploration", engine="E1 storage-sim (+E3 scheduler for async mode)",
    technique="deterministic simulation: seeded seek/read histories on eight reader kinds over simulated storage, checked operation by operation against a cursor reference model; tape shrinking + replay",
    text="Seeded search over files (option swarm) and histories of SeekToRow/ReadRows/ReadPage/ReadValues/OffsetIndex operations; after every operation the rows or values returned must be exactly model[cursor:cursor+m], io.EOF only at the end, progress within 8 calls. Sampling of histories and configurations.",
